@@ -299,11 +299,16 @@ def _priv_member(code):
     raise KeyError(code)
 
 
-def _wd_config(t):
+def _wd_config(t, ip=None):
+    """t[1] = 'n': the don't-stop attribute is left untouched (None on a fresh object AND on an object read
+    back with get_watchdog_timer, which is then re-used as applications do) - it denotes 0, "stop the timer"."""
     from pyipmi.bmc import Watchdog
     c = Watchdog()
+    if t[1] == 'n':
+        c = getattr(ip, '_verif_last_watchdog', None) or c
     c.timer_use = int(t[0])
-    c.dont_stop = t[1] == '1'
+    if t[1] != 'n':
+        c.dont_stop = t[1] == '1'
     c.dont_log = t[2] == '1'
     c.timeout_action = int(t[3])
     c.pre_timeout_interrupt = int(t[4])
@@ -360,6 +365,12 @@ class Op(object):
         self.name, self.fam, self.read = name, fam, read
         self.gen, self.call, self.canon = gen, call, canon
         self.changers = list(changers)
+        self.denote = lambda tok: tok      # tokens as the specification reads them
+
+
+def _remember_wd(ip, w):
+    ip._verif_last_watchdog = w
+    return w
 
 
 def _m(name):
@@ -383,9 +394,10 @@ _op('get_device_guid', 'bmc', True, lambda r: [], lambda ip, t: ip.get_device_gu
 _op('cold_reset', 'bmc', False, lambda r: [], lambda ip, t: ip.cold_reset(), c_none)
 _op('warm_reset', 'bmc', False, lambda r: [], lambda ip, t: ip.warm_reset(), c_none)
 _op('set_watchdog_timer', 'watchdog', False,
-    lambda r: _T(g_bits(3)(r), r.randrange(2), r.randrange(2), g_bits(3)(r), g_bits(3)(r), g_byte(r), g_byte(r), g_bits(16)(r)),
-    lambda ip, t: ip.set_watchdog_timer(_wd_config(t)), c_none)
-_op('get_watchdog_timer', 'watchdog', True, lambda r: [], lambda ip, t: ip.get_watchdog_timer(), c_watchdog,
+    lambda r: _T(g_bits(3)(r), r.choice([0, 1, 'n']), r.randrange(2), g_bits(3)(r), g_bits(3)(r), g_byte(r), g_byte(r), g_bits(16)(r)),
+    lambda ip, t: ip.set_watchdog_timer(_wd_config(t, ip)), c_none)
+OPS['set_watchdog_timer'].denote = lambda tok: [tok[0], '0' if tok[1] == 'n' else tok[1]] + list(tok[2:])
+_op('get_watchdog_timer', 'watchdog', True, lambda r: [], lambda ip, t: _remember_wd(ip, ip.get_watchdog_timer()), c_watchdog,
     ['mut:device', 'set_watchdog_timer', 'reset_watchdog_timer'])
 _op('reset_watchdog_timer', 'watchdog', False, lambda r: [], lambda ip, t: ip.reset_watchdog_timer(), c_none)
 # --- chassis
@@ -610,7 +622,7 @@ def run_history(drv, hist, modelled, ctx=None, verbose=False):
             continue
         op = OPS[st['op']]
         tok = st['tok']
-        line = ' '.join([st['op']] + tok)
+        line = ' '.join([st['op']] + list(op.denote(tok)))
         spec = drv.ask('spec %d %s' % (bi, line))
         if spec == 'bad-op':
             raise lean.LeanError('driver does not know: ' + line)
@@ -774,6 +786,10 @@ def directed_histories(rng):
     def C(op, *tok, **kw):
         return {'conn': kw.get('conn', 0), 'op': op, 'tok': _T(*tok)}
 
+    # watchdog: a running timer read back, the object changed and written again with don't-stop untouched
+    for use in (1, 4):
+        H([C('set_watchdog_timer', use, 1, 0, 1, 0, 0, 0, 600), C('reset_watchdog_timer'), C('get_watchdog_timer'),
+           C('set_watchdog_timer', use, 'n', 0, 2, 0, 0, 0, 300), C('get_watchdog_timer')])
     for d in range(12):                     # boot device: API write then API read, both directions of the table
         H([C('set_boot_options', d, d % 2, (d // 2) % 2), C('get_boot_device'), C('get_boot_mode'), C('get_boot_persistency')])
     for code in (0, 1, 2, 3, 4, 5, 6, 7, 8, 9, 11, 15):   # boot device: raw selector written, API read
